@@ -100,6 +100,13 @@ func runRuntime(prop, tier string) int {
 			fmt.Println("note: left out of the batch:", trunc(s, 300))
 			run.Add("requests_left_out_not_type_checking", 1)
 		}
+		// the static oracles' verdicts on the batch's own requests that concern this property (method sets,
+		// accessors, reset API): a request that was left out must not become a hole in this check
+		for _, f := range b.Static {
+			if f.Prop == prop {
+				run.Violation(fmt.Sprintf("tree seed=%d mock=%s argv=%v :: emitted file: %s", t.Seed, f.Mock, f.Argv, f.Msg), batchFiles(b, rt.MockSpec{}, nil))
+			}
+		}
 		shapes := map[string]rt.MockSpec{}
 		for _, m := range b.Mocks {
 			shapes[m.Name] = m
@@ -110,8 +117,25 @@ func runRuntime(prop, tier string) int {
 			if tier == "thorough" {
 				ops, rounds = 400, 6
 			}
-			rr := rt.Run(b.Bins["plain"], []string{"seq", fmt.Sprint(seed + int64(bi)), fmt.Sprintf("ops=%d", ops), fmt.Sprintf("rounds=%d", rounds)}, nil, 20*time.Minute)
-			handleRun(run, prop, b, rr, agg, "seq", shapes, nil)
+			var skip []string
+			for attempt := 0; attempt < 8; attempt++ {
+				args := []string{"seq", fmt.Sprint(seed + int64(bi)), fmt.Sprintf("ops=%d", ops), fmt.Sprintf("rounds=%d", rounds)}
+				if len(skip) > 0 {
+					args = append(args, "skip="+strings.Join(skip, ","))
+				}
+				rr := rt.Run(b.Bins["plain"], args, nil, 20*time.Minute)
+				dead := strings.Contains(rr.Stderr, "all goroutines are asleep - deadlock!")
+				handleRun(run, prop, b, rr, agg, "seq", shapes, &dead)
+				if !dead || rr.LastMock == "" {
+					break
+				}
+				// the sequential driver holds no locks of its own: a Go runtime deadlock report means an operation on
+				// the mock never returned, so nothing this property promises about it can be observed
+				m := shapes[rr.LastMock]
+				run.Violation(fmt.Sprintf("tree seed=%d mock=%s (iface %s, stub=%v resets=%v other-package=%v) :: an operation on the mock never returned: Go runtime reports 'all goroutines are asleep - deadlock!' in a sequential history", t.Seed, rr.LastMock, m.Iface.Name, m.Stub, m.Resets, m.Other),
+					batchFiles(b, m, map[string]string{"stderr.txt": trunc(rr.Stderr, 20000)}))
+				skip = append(skip, rr.LastMock)
+			}
 		case "C05":
 			hist, ops := 4, 25
 			if tier == "thorough" {
